@@ -148,7 +148,17 @@ func genCase(r *hlib.Rand, c int, tier string, reqPer int, emit func(string)) {
 	if c%5 == 2 {
 		vocab = 40
 	}
-	kw := func() string { return fmt.Sprintf("v%02d", r.Intn(vocab)) }
+	// the keyword vocabulary of the case: "v00".."vNN", or (40% of the cases) words from the second alphabet
+	words := make([]string, vocab)
+	for i := range words {
+		words[i] = fmt.Sprintf("v%02d", i)
+	}
+	if c%5 == 3 || r.Chance(30) {
+		for i := range words {
+			words[i] = shapedWords[r.Intn(len(shapedWords))]
+		}
+	}
+	kw := func() string { return words[r.Intn(len(words))] }
 	toks := []string{"a", "b", "c", "d", "e"}
 
 	docs := []*gdoc{}
@@ -232,7 +242,7 @@ func genCase(r *hlib.Rand, c int, tier string, reqPer int, emit func(string)) {
 			emit("dv " + d.id)
 		}
 	}
-	g := &reqGen{r: r, live: live, pool: pool, dpool: dpool, vocab: vocab}
+	g := &reqGen{r: r, live: live, pool: pool, dpool: dpool, vocab: vocab, words: words}
 	type tree struct {
 		a     string
 		reads map[string]bool
@@ -271,12 +281,34 @@ func docLine(d *gdoc) string {
 	return sb.String()
 }
 
+// shapedWords: a second keyword alphabet whose BYTE SHAPE is that of prefix-coded numeric terms (first byte 0x20+shift,
+// length (63-shift)/7+2): for every first character 'A'..'Z', '0'..'9' and every length 1..9 one word, plus ordinary
+// words of exactly such shapes ("Alaska" = shift 33 / 6 bytes, "Delhi", "Oslo", "Rio", "20240101", "8675309").
+// Keywords are opaque byte strings to every aggregation. (A first byte ' ' — shift 0 — cannot travel in the
+// space-separated script and is not generated.)
+var shapedWords = func() []string {
+	out := []string{"Alaska", "Boston", "Canada", "Delhi", "Japan", "Hanoi", "Oslo", "Lima", "Kiev", "Rio", "Ulm", "20240101", "55512345", "8675309", "9000000"}
+	fill := "laskaxyzw"
+	for _, first := range "ABCDEFGHIJKLMNOPQRSTUVWXYZ0123456789" {
+		for n := 1; n <= 9; n++ {
+			out = append(out, string(first)+fill[:n-1])
+		}
+	}
+	return out
+}()
+
+func shapedLikeShiftedTerm(v string) bool {
+	ok, shift := numeric.ValidPrefixCodedTermBytes([]byte(v))
+	return ok && shift > 0
+}
+
 type reqGen struct {
 	r     *hlib.Rand
 	live  []*gdoc
 	pool  []float64
 	dpool []int64
 	vocab int
+	words []string
 }
 
 func (g *reqGen) someVal(f string) (string, bool) {
@@ -473,7 +505,7 @@ func (g *reqGen) aggs() (string, map[string]bool) {
 				if v, ok := g.someVal(f); ok && r.Bool() {
 					set[v] = true
 				} else {
-					set[fmt.Sprintf("v%02d", r.Intn(g.vocab))] = true
+					set[g.words[r.Intn(len(g.words))]] = true
 				}
 			}
 			vs := []string{}
@@ -1330,6 +1362,27 @@ func (s *h) execReq(line string, st *reqStats) (string, string) {
 
 	st.Count("q:" + strings.SplitN(q, ":", 2)[0])
 	st.Count("c:" + cs[0] + ":" + mode)
+	// cardinality / terms sources (root or nested) whose matched values include a keyword shaped like a shifted numeric term
+	shapedIn := func(spec string) bool {
+		for _, id := range ids {
+			for _, v := range canonTerms(s.docs[id], spec) {
+				if shapedLikeShiftedTerm(v) {
+					return true
+				}
+			}
+		}
+		return false
+	}
+	for _, sp := range specs {
+		if (sp.kind == "card" || sp.kind == "terms") && shapedIn(sp.f) {
+			st.Count("keyword-shaped-like-shifted-numeric-term:" + sp.kind)
+		}
+		for _, sub := range sp.subs {
+			if sub.kind == "card" && shapedIn(sub.f) {
+				st.Count("keyword-shaped-like-shifted-numeric-term:nested-card")
+			}
+		}
+	}
 	for _, sp := range specs {
 		if strings.Contains(sp.f, "!") {
 			st.Count("src:filtered:" + sp.kind)
